@@ -19,9 +19,9 @@ meta = {
     "needs_to_manifest": needs,
     "confirmed_by_me": conf[0] if conf else "NOT CONFIRMED",
     "confirmation_commands": [
-        "cd /tmp/wt6_{p} && PYTHONPATH=/tmp/wt6_{p} /venv/bin/python demo.py   # clean: exit 0".format(p=pid),
-        "git apply patch.diff && PYTHONPATH=/tmp/wt6_{p} /venv/bin/python demo.py   # patched: exit != 0".format(p=pid),
-        "PYTHONPATH=/tmp/wt6_{p} /venv/bin/python -m pytest -q -p no:cacheprovider --timeout=900 --continue-on-collection-errors --junitxml=...   # all 352 stable_pass tests still pass".format(p=pid),
+        "cd /tmp/wt8_{p} && PYTHONPATH=/tmp/wt8_{p} /venv/bin/python demo.py   # clean: exit 0".format(p=pid),
+        "git apply patch.diff && PYTHONPATH=/tmp/wt8_{p} /venv/bin/python demo.py   # patched: exit != 0".format(p=pid),
+        "PYTHONPATH=/tmp/wt8_{p} /venv/bin/python -m pytest -q -p no:cacheprovider --timeout=900 --continue-on-collection-errors --junitxml=...   # all 352 stable_pass tests still pass".format(p=pid),
     ],
     "check_result": exitline[0] if exitline else "exit 0 (MISSED)",
     "detected_by": [l[:400] for l in lines[:3]],
